@@ -41,12 +41,15 @@ const (
 	c20JSONTranslate = 4
 	c20GRBThenGRL    = 5
 
-	c20AllocBase   = 64 << 20  // 64 MiB
-	c20AllocPerB   = 256 << 10 // 256 KiB per input byte
-	c20TimeLimit   = 20 * time.Second
-	c20AddrLimit   = 3 << 30 // RLIMIT_AS of the child
-	c20ChainKnown  = 64      // inputs with a longer operator/selector/parenthesis chain are the open finding
-	c20MaxInputLen = 64 << 10
+	c20AllocBase = 64 << 20  // 64 MiB
+	c20AllocPerB = 256 << 10 // 256 KiB per input byte
+	// inputs whose longest chain is shorter than c20ChainFlat are held to c20AllocPerBFlat per input byte
+	c20AllocPerBFlat = 8 << 10
+	c20ChainFlat     = 8
+	c20TimeLimit     = 20 * time.Second
+	c20AddrLimit     = 3 << 30 // RLIMIT_AS of the child
+	c20ChainKnown    = 64      // inputs with a longer operator/selector/parenthesis chain are the open finding
+	c20MaxInputLen   = 64 << 10
 )
 
 var c20TargetName = []string{"grl", "jsonrule", "jsonfact", "grb", "jsontranslate", "grb-then-grl"}
@@ -236,6 +239,10 @@ func longestChain(in c20Input) int {
 func c20Judge(in c20Input, r c20Result) (violation string, knownCubic bool) {
 	limit := uint64(c20AllocBase) + uint64(c20AllocPerB)*uint64(len(in.Data))
 	chain := longestChain(in)
+	if chain < c20ChainFlat {
+		// an input without any chain to speak of costs a few hundred bytes per input byte: a much tighter bound
+		limit = uint64(c20AllocBase) + uint64(c20AllocPerBFlat)*uint64(len(in.Data))
+	}
 	resource := ""
 	switch {
 	case r.Died != "":
@@ -449,7 +456,18 @@ func c20Structure(rt *rapid.T, target int) []byte {
 	n := rapid.IntRange(1, 30).Draw(rt, "struct_n") // chains stay below the open finding's signature
 	switch target {
 	case c20GRL:
-		switch rapid.IntRange(0, 10).Draw(rt, "struct_kind") {
+		switch rapid.IntRange(0, 12).Draw(rt, "struct_kind") {
+		case 11:
+			// very many lexical / syntax errors on one long line
+			unit := rapid.SampledFrom([]string{"# @ $ ~ ", ": ", "\" ", "} { ", "rule ", "1e ", "0x "}).Draw(rt, "error_unit")
+			return []byte(strings.Repeat(unit, n*1000/len(unit)))
+		case 12:
+			// a minified JSON rule set on one line, handed to the GRL loader as it is
+			var parts []string
+			for i := 0; i < n*6; i++ {
+				parts = append(parts, fmt.Sprintf(`{"name":"R%d","desc":"d","salience":3,"when":{"and":[{"eq":[{"obj":"F.B"},{"const":true}]},{"lt":["F.I64",10]}]},"then":[{"set":["F.I64",{"plus":["F.I64",1]}]}]}`, i))
+			}
+			return []byte("[" + strings.Join(parts, ",") + "]")
 		case 9, 10:
 			// a rule skeleton in which every part may be empty, with drawn separators (blank, line break,
 			// comments, nothing) between the parts
@@ -647,7 +665,7 @@ func c20Describe(in c20Input) c20Replay {
 }
 
 func TestC20(t *testing.T) {
-	col := stats.New("C20", "the loaders - BuildRuleFromResource (GRL bytes), JSONResource.Load + build (JSON rule bytes), DataContext.AddJSON (JSON fact bytes), LoadKnowledgeBaseFromReader (binary stream; half of the valid streams are then handed on to the GRL loader and to NewKnowledgeBaseInstance, which must not panic either) - are fed generated inputs: random bytes; valid inputs produced by the other checks' generators (grammar-rich GRL documents, JSON rules converted from typed trees, JSON fact documents, stored binary images of built knowledge bases); 1-3 structure-aware mutations of those (bit flips, boundary bytes, deletion, duplication, repetition, insertion, truncation, splicing, 8-byte boundary numbers, length-field edits at the binary format's field boundaries taken from the loader's own Read calls, edits of nested length fields (a length stored inside a length-prefixed blob), node-identifier swaps (a well-formed stream whose node references form cycles, dangle or name a node of another kind), token-level GRL mutations); and structural inputs (nesting, long flat chains, many rules, deep JSON). Every input is executed in a child process built from the current tree with an address-space limit of 3 GiB; the parent knows the culprit when the child dies or exceeds the hang guard. Oracle per input: no panic escapes the loader, the process survives, TotalAlloc grows by at most 64 MiB + 256 KiB per input byte (deterministic), wall time <= 20 s (three orders of magnitude above normal; hang guard only). Non-trivial: the loader got past its first validation step (returned success, or an error after structural parsing: GRL/JSON inputs that lex, binary streams with a valid version header). Distinct by input bytes.",
+	col := stats.New("C20", "the loaders - BuildRuleFromResource (GRL bytes), JSONResource.Load + build (JSON rule bytes), DataContext.AddJSON (JSON fact bytes), LoadKnowledgeBaseFromReader (binary stream; half of the valid streams are then handed on to the GRL loader and to NewKnowledgeBaseInstance, which must not panic either) - are fed generated inputs: random bytes; valid inputs produced by the other checks' generators (grammar-rich GRL documents, JSON rules converted from typed trees, JSON fact documents, stored binary images of built knowledge bases); 1-3 structure-aware mutations of those (bit flips, boundary bytes, deletion, duplication, repetition, insertion, truncation, splicing, 8-byte boundary numbers, length-field edits at the binary format's field boundaries taken from the loader's own Read calls, edits of nested length fields (a length stored inside a length-prefixed blob), node-identifier swaps (a well-formed stream whose node references form cycles, dangle or name a node of another kind), token-level GRL mutations); and structural inputs (nesting, long flat chains, many rules, deep JSON). Every input is executed in a child process built from the current tree with an address-space limit of 3 GiB; the parent knows the culprit when the child dies or exceeds the hang guard. Oracle per input: no panic escapes the loader, the process survives, TotalAlloc grows by at most 64 MiB + 256 KiB per input byte - 64 MiB + 8 KiB per input byte for inputs without a chain of 8 or more - (deterministic), wall time <= 20 s (three orders of magnitude above normal; hang guard only). Non-trivial: the loader got past its first validation step (returned success, or an error after structural parsing: GRL/JSON inputs that lex, binary streams with a valid version header). Distinct by input bytes.",
 		"inputs whose longest operator/selector/parenthesis chain in one statement is >= 64 belong to the open finding about cubic build cost; generated chains stay <= 32 and are counted when a mutation exceeds the signature",
 		"time is not used as a correctness signal below the 20 s hang guard")
 	defer col.Flush()
